@@ -496,7 +496,10 @@ Lemma json_paths_noselect paths : flat_map escans (map json_path_sql paths) = []
 Proof.
   induction paths as [|p r IH]; [reflexivity|]. cbn [map flat_map]. rewrite IH.
   unfold json_path_sql. cbn [escans flat_map app].
-  assert (H : flat_map escans (map StrV p) = []) by (induction p as [|x y IHp]; [reflexivity | cbn [map flat_map escans]; exact IHp]).
+  assert (H : flat_map escans (map json_part p) = []).
+  { induction p as [|x y IHp]; [reflexivity|]. cbn [map flat_map]. rewrite IHp.
+    unfold json_part. destruct x as [|c d]; [reflexivity|]. destruct (Ascii.eqb c "000"%char); [|reflexivity].
+    destruct d as [|c2 d2]; [reflexivity|]. destruct (Ascii.eqb c2 "000"%char); reflexivity. }
   rewrite H. reflexivity.
 Qed.
 Lemma strvs_noselect l : flat_map escans (map StrV l) = [].
@@ -504,8 +507,9 @@ Proof. induction l as [|x y IH]; [reflexivity | cbn [map flat_map escans]; exact
 (* LineFormatPlanner: format('..', labels['a'], ...) reads no table *)
 Lemma tpl_sql_noselect ns : escans (LogqlTemplate.tpl_sql ns) = [].
 Proof.
-  unfold LogqlTemplate.tpl_sql. destruct (LogqlTemplate.tpl_fmt ns 0) as [f a]. cbn [escans flat_map app].
-  rewrite app_nil_r. induction a as [|x r IH]; [reflexivity | cbn [map flat_map escans app]; exact IH].
+  unfold LogqlTemplate.tpl_sql. destruct (LogqlTemplate.tpl_fmt (LogqlTemplate.pieces ns) 0) as [f a].
+  destruct a as [|a0 ar]; [reflexivity|]. cbn [escans flat_map app]. rewrite app_nil_r.
+  generalize (a0 :: ar) as a. intros a. induction a as [|x r IH]; [reflexivity | cbn [map flat_map escans LogqlTemplate.label_arg app]; exact IH].
 Qed.
 Lemma json_parser_noselect labels paths : escans (sql_json_parser labels paths) = [].
 Proof.
